@@ -6,6 +6,7 @@ package main
 
 import (
 	"fmt"
+	"go/constant"
 	"go/token"
 	"go/types"
 	"os"
@@ -123,6 +124,8 @@ func Load(repo string, env []string) (*Prog, error) {
 		}
 	}
 	sort.Slice(p.modFns, func(i, j int) bool { return p.modFns[i].String() < p.modFns[j].String() })
+	p.threadStoredConditions()
+	p.normalizeComparisons()
 	return p, nil
 }
 
@@ -237,6 +240,224 @@ func (p *Prog) FuncsOfPkg(short string) []*ssa.Function {
 	}
 	sort.Slice(out, func(i, j int) bool { return FuncKey(out[i]) < FuncKey(out[j]) })
 	return out
+}
+
+// threadStoredConditions undoes "extract variable" on a short-circuit condition. `c := a && b; if c {T} else {F}` builds a
+// block that holds nothing but phi(false, b) and the If; `if a && b {T} else {F}` jumps from the test of a straight to F.
+// Both behave alike; the rules are written against the second form, which shows in the control flow which operand decided.
+// For every block that consists of one boolean phi and an If on it (the phi used by nothing else), each predecessor that
+// contributes a constant is redirected to the successor that constant selects; a phi left with one edge is replaced by
+// its value. Dominators are computed after this (ssautil.go: idoms).
+func (p *Prog) threadStoredConditions() {
+	for _, fn := range p.modFns {
+		for changed := true; changed; {
+			changed = false
+			for _, b := range fn.Blocks {
+				if len(b.Instrs) != 2 || len(b.Succs) != 2 {
+					continue
+				}
+				c, isPhi := b.Instrs[0].(*ssa.Phi)
+				iff, isIf := b.Instrs[1].(*ssa.If)
+				if !isPhi || !isIf || iff.Cond != ssa.Value(c) {
+					continue
+				}
+				if refs := c.Referrers(); refs == nil || len(*refs) != 1 {
+					continue
+				}
+				for i := 0; i < len(b.Preds); i++ {
+					k, isK := c.Edges[i].(*ssa.Const)
+					if !isK || k.Value == nil || k.Value.Kind() != constant.Bool {
+						continue
+					}
+					target := b.Succs[1]
+					if constant.BoolVal(k.Value) {
+						target = b.Succs[0]
+					}
+					pred := b.Preds[i]
+					if target == b || pred == b {
+						continue
+					}
+					// the value every phi of the target receives from b
+					j := -1
+					for x, tp := range target.Preds {
+						if tp == b {
+							j = x
+						}
+					}
+					if j < 0 {
+						continue
+					}
+					ok := true
+					for _, ins := range target.Instrs {
+						ph, isP := ins.(*ssa.Phi)
+						if !isP {
+							break
+						}
+						if ph.Edges[j] == ssa.Value(c) {
+							ok = false
+						}
+					}
+					if !ok {
+						continue
+					}
+					for _, ins := range target.Instrs {
+						ph, isP := ins.(*ssa.Phi)
+						if !isP {
+							break
+						}
+						ph.Edges = append(ph.Edges, ph.Edges[j])
+						if rr := ph.Edges[j].Referrers(); rr != nil {
+							*rr = append(*rr, ph)
+						}
+					}
+					target.Preds = append(target.Preds, pred)
+					for x, sx := range pred.Succs {
+						if sx == b {
+							pred.Succs[x] = target
+							break
+						}
+					}
+					b.Preds = append(b.Preds[:i:i], b.Preds[i+1:]...)
+					c.Edges = append(c.Edges[:i:i], c.Edges[i+1:]...)
+					changed = true
+					i--
+				}
+				if len(b.Preds) == 1 && len(c.Edges) == 1 {
+					v := c.Edges[0]
+					iff.Cond = v
+					if rr := v.Referrers(); rr != nil {
+						*rr = append(*rr, iff)
+					}
+					*c.Referrers() = nil
+					changed = true
+				}
+			}
+		}
+	}
+}
+
+func negateCmp(op token.Token) token.Token {
+	switch op {
+	case token.EQL:
+		return token.NEQ
+	case token.NEQ:
+		return token.EQL
+	case token.LSS:
+		return token.GEQ
+	case token.GEQ:
+		return token.LSS
+	case token.GTR:
+		return token.LEQ
+	case token.LEQ:
+		return token.GTR
+	}
+	return op
+}
+
+func isFloatOperand(v ssa.Value) bool {
+	if bt, ok := v.Type().Underlying().(*types.Basic); ok {
+		return bt.Info()&(types.IsFloat|types.IsComplex) != 0
+	}
+	return false
+}
+
+// normalizeComparisons rewrites, in place, every comparison of the module whose left operand is a constant and whose
+// right operand is not into the mirrored form with the constant on the right (`0 == len(x)` becomes `len(x) == 0`,
+// `nil != err` becomes `err != nil`). The two forms mean the same; the rules are written against the second.
+func (p *Prog) normalizeComparisons() {
+	for _, fn := range p.modFns {
+		// `c := !x; if c {A} else {B}` is `if x {B} else {A}` (what the builder makes of `if !x` anyway)
+		for _, b := range fn.Blocks {
+			if len(b.Instrs) == 0 || len(b.Succs) != 2 {
+				continue
+			}
+			iff, ok := b.Instrs[len(b.Instrs)-1].(*ssa.If)
+			if !ok {
+				continue
+			}
+			for i := 0; i < 4; i++ {
+				un, isU := iff.Cond.(*ssa.UnOp)
+				if !isU || un.Op != token.NOT {
+					break
+				}
+				iff.Cond = un.X
+				b.Succs[0], b.Succs[1] = b.Succs[1], b.Succs[0]
+				if rr := un.X.Referrers(); rr != nil {
+					*rr = append(*rr, iff)
+				}
+				if ur := un.Referrers(); ur != nil {
+					kept := (*ur)[:0]
+					for _, u := range *ur {
+						if u != ssa.Instruction(iff) {
+							kept = append(kept, u)
+						}
+					}
+					*ur = kept
+				}
+			}
+		}
+		for _, b := range fn.Blocks {
+			for _, ins := range b.Instrs {
+				bo, ok := ins.(*ssa.BinOp)
+				if !ok {
+					continue
+				}
+				switch bo.Op {
+				case token.EQL, token.NEQ, token.LSS, token.GTR, token.LEQ, token.GEQ:
+				default:
+					continue
+				}
+				_, xc := bo.X.(*ssa.Const)
+				_, yc := bo.Y.(*ssa.Const)
+				// !(a < b) is a >= b (not for floating point operands: NaN): when the comparison is only used negated,
+				// it becomes the negated comparison and takes the place of the negation
+				if refs := bo.Referrers(); refs != nil && len(*refs) == 1 {
+					if un, isU := (*refs)[0].(*ssa.UnOp); isU && un.Op == token.NOT && !isFloatOperand(bo.X) {
+						if ur := un.Referrers(); ur != nil {
+							bo.Op = negateCmp(bo.Op)
+							users := append([]ssa.Instruction(nil), (*ur)...)
+							for _, u := range users {
+								for _, opnd := range u.Operands(nil) {
+									if *opnd == ssa.Value(un) {
+										*opnd = bo
+									}
+								}
+							}
+							*refs = users
+							*ur = nil
+						}
+					}
+				}
+				// len(x) < 1, len(x) <= 0 are len(x) == 0; len(x) >= 1 is len(x) > 0
+				if c, isCall := bo.X.(*ssa.Call); isCall && yc {
+					if bi, isB := c.Call.Value.(*ssa.Builtin); isB && (bi.Name() == "len" || bi.Name() == "cap") {
+						if k, isK := constInt(bo.Y); isK {
+							zero := ssa.NewConst(constant.MakeInt64(0), bo.Y.Type())
+							switch {
+							case bo.Op == token.LSS && k == 1, bo.Op == token.LEQ && k == 0:
+								bo.Op, bo.Y = token.EQL, zero
+							case bo.Op == token.GEQ && k == 1:
+								bo.Op, bo.Y = token.GTR, zero
+							}
+						}
+					}
+				}
+				if xc && !yc {
+					bo.X, bo.Y = bo.Y, bo.X
+					switch bo.Op {
+					case token.LSS:
+						bo.Op = token.GTR
+					case token.GTR:
+						bo.Op = token.LSS
+					case token.LEQ:
+						bo.Op = token.GEQ
+					case token.GEQ:
+						bo.Op = token.LEQ
+					}
+				}
+			}
+		}
+	}
 }
 
 func (p *Prog) ModuleFuncs() []*ssa.Function {
